@@ -18,12 +18,12 @@ CLAIMS = {
             'Sender bookkeeping and the resend loop body are under contract too (units U6/U9), and RenetClient::{new, new_from_server, from_channels} are proved verbatim to build '
             'each configured channel with its configured kind, budget and direction (U14).',
             'RenetClient::{process_packet, send_message, receive_message} are proved verbatim (U15): a decodable packet reaches exactly the channel it names, every (id, bytes) pair of it is taken over or already done, '
-            'nothing else changes; send_message stores the bytes once under the next id of the named channel. Not decided: the liveness sentence (bounded ticks), RenetClient::get_packets_to_send glue and the Ack arm of process_packet (ack -> message id lookup), '
+            'nothing else changes; send_message stores the bytes once under the next id of the named channel. Not decided: the liveness sentence (bounded ticks), the ack -> message id correspondence of the sent-packet records, '
             'and that the renet wire codec is the identity on (id, bytes) pairs (see C16).'),
     'C02': ('Unordered reliable receive: `done` is monotone, a message is stored only if its id is not done, receive_message removes exactly what it returns, '
             'and returns Some whenever a complete message is buffered; the cursor loop is proved with invariant and decreases. A ReliableUnordered configuration entry yields an '
             'unordered receive channel (RenetClient::from_channels, verbatim, U14).',
-            'Not decided: liveness; RenetClient::get_packets_to_send glue and the Ack arm of process_packet.'),
+            'Not decided: liveness.'),
     'C03': ('Reassembly equals the submitted bytes for every length and every arrival order with duplicates (one quantified statement over all messages m: '
             'agrees(m) is preserved, a result appears only when all slices arrived and then equals m); buffered bytes per id stay authentic. Sender: every unreliable slice packet '
             'carries the id opened for its message, ids of one flush are fresh and never shared by two messages (U7).',
@@ -36,14 +36,17 @@ CLAIMS = {
     'C06': ('No precondition on wire-controlled arguments: SliceConstructor, both receive channels (as listed in the evidence) and the ack list return for every input, '
             'without index/overflow/unreachable failures, keep memory == sum of what is stored <= max.',
             'RenetClient::process_packet is proved verbatim with no precondition on the bytes (U15): it returns for every input; undecodable bytes, an unknown channel id or a channel error only move the connection '
-            'to Disconnected with the matching reason; the client invariant (every channel invariant while alive) is preserved. Not decided: the Ack arm of process_packet (BTreeMap::range, floating point: rule D8) and RenetServer::process_packet_from beyond its routing frame.'),
+            'to Disconnected with the matching reason; the client invariant (every channel invariant while alive) is preserved. The Ack arm is under contract too: no panic for any decoded range list (BTreeMap::range precondition start <= end, every unwrap justified by the record invariant). '
+            'Assumed there: the loop over BTreeMap::range as a summary (rule D18), the floating-point rtt estimate cut out (rule D19), the record invariant records_ok as a precondition. Not decided: RenetServer::process_packet_from beyond its routing frame.'),
     'C07': ('Packet::decode returns for every datagram of length 0..=48 with all 256 prefix bytes and announced sequence lengths 0..15, with and without key (Kani, complete '
             'for that length range; AEAD stubbed with its precondition checked); a datagram the AEAD did not accept leaves the replay window untouched; '
             'ReplayProtection has no precondition on the sequence (Verus).',
             'Not decided: NetcodeServer::process_packet (out of reach). Client/token harnesses are listed in the evidence when unit U12 is present.'),
     'C08': ('The pending-ack list never contains a sequence that was not added (view(final) subset of view(old)+{q}), stays sorted/disjoint/non-adjacent for any arrival '
             'order and is trimmed exactly up to the horizon by acked_largest (Verus, unbounded).',
-            'Every decodable non-Ack packet handed to RenetClient::process_packet has its sequence recorded by add_pending_ack (U15). Not decided: the composition in the Ack arm of RenetClient::process_packet (ack ranges -> sent_packets -> message ids).'),
+            'Every decodable non-Ack packet handed to RenetClient::process_packet has its sequence recorded by add_pending_ack (U15). The Ack arm of RenetClient::process_packet (U15): exactly the records whose sequence lies inside a received half-open range are removed (none outside), acknowledgements only release or mark messages of reliable send channels (nothing is added or altered), '
+            'our own pending list is only trimmed. Assumed: BTreeMap::range summary (D18), records_ok (that a record names the ids/slices of the packet it was written for is established in get_packets_to_send by code not under that contract). '
+            'Not decided: that a released message id is one the acknowledged packet carried (needs the record contents, written through map/collect).'),
     'C09': ('Accounting invariant memory_usage_bytes == sum of stored message lengths + reserved reassembly buffers <= max, preserved by every operation of the reliable '
             'receive channel from every state, including the offset state inside process_slice; duplicates of done messages reserve nothing (clean()).',
             'RenetClient::update (U18, verbatim around an assumed values_mut induction, rule D18) applies the 3-second discard to every unreliable receive channel with the advanced clock. '
@@ -81,7 +84,7 @@ CLAIMS.update({
             '(timestamp = now, appended to the batch, budget charged) once it elapsed and the budget allows; every slice packet emitted is unacknowledged and due, its transmission time is recorded; '
             'timestamps change only to now; acknowledged slices/messages are never emitted (process_*_ack removes the entry or sets the flag: U6).',
             'The 3-second horizon: RenetClient::update (U18) forgets the record of a sent packet only when it is at least 3 s old and keeps every younger record unchanged. '
-            'Assumed: D6/D18 iteration protocol; time is monotone (last_sent <= current_time). Not decided: the ack->id lookup in the Ack arm of RenetClient::process_packet (rule D8); '
+            'Assumed: D6/D18 iteration protocol; time is monotone (last_sent <= current_time). Not decided: that the ids recorded for a sent packet are the ids it carried (map/collect in get_packets_to_send); '
             '"promptly" for slices is only the per-slice statement above, not a bound over ticks.'),
 })
 
